@@ -229,6 +229,9 @@ OneLine(ev, args, tbl, aux, obs) ==
   /\ Chk("C02", "reject.untouched", li.isf \/ ev.ch = <<>>, ev,
          IF Len(f) \in {14, 28} /\ ~LenAgrees(f) THEN "lendf" ELSE IF Len(f) \in {14, 28} THEN "parity" ELSE "length")
   /\ Chk("C02", "frame.applied", (app /\ li.df \in NineDF) => a \in k1, ev, "accept")
+  \* whatever property is being checked: a frame that had to be applied and left no row behind decides it negatively (nothing of
+  \* what the frame carries can be in the table)
+  /\ (IF Prop \in {"ALL", "DRIFT", "C01", "C02"} THEN TRUE ELSE Chk(Prop, "frame.applied", (app /\ ev.ok) => a \in k1, ev, "dropped"))
   /\ Mark("C02", TRUE, ev)
   /\ Chk("C03", "isolation", app => (ChSet(ev) \subseteq {a} /\ k1 \ k0 \subseteq {a}), ev, "other.row")
   /\ Chk("C03", "zero.dropped", (li.isf /\ a = 0) => ev.ch = <<>>, ev, "zero")
